@@ -11,6 +11,8 @@ code as it stands (on tables that do carry a label 7) and the repaired variant a
   `C11_plscf_find_min_degenerate`: which order is reported, which cells are read, for every input — as coded,
   including the last column that is never tested, the `ii -= 1` after the `break`, and the wrap to index `-1`.
 * `plscfColTest_iff`: what the column test means on disjoint open bands.
+* `C11_plscf_find_min_order_iff`: under the property's premises a qualifying order `i` is the reported one **iff** it is
+  not the last column and no lower column passes the coded test.
 * `C11_plscf_find_min_premises`: under the property's premises the routine returns the property's answer **provided**
   the qualifying order is not the last column and no lower column passes the (weaker) coded test; the deviations are
   listed there and witnessed in `Mutants/C11.lean`.
@@ -352,6 +354,40 @@ theorem C11_plscf_find_min_premises (hne : freq ≠ []) (hd : OpenBandsDisjoint 
     simp only [pickRows, List.mem_map]
     exact ⟨v, hvu, rfl⟩
 
+/-- **exactly when the property's order is reported** (any label value).  Under the property's premises, with a column
+    `i` that qualifies in the property's sense, the routine reports `i` **iff** `i` is not the last column and no
+    lower column passes the coded test.  (For the least qualifying `i` this is the precise extent to which the `lab = 1`
+    variant satisfies "the reported order is the lowest one at which every requested frequency has exactly one stable
+    pole within tolerance".) -/
+theorem C11_plscf_find_min_order_iff (hne : freq ≠ []) (hd : OpenBandsDisjoint freq deltaf) (i : Nat)
+    (hic : i < Fn.c) (hq : OnePerBand Fn L lab freq deltaf rtol i) {out : MpeOut}
+    (h : plscfMpeWith chk lab freq Fn Xi Phi .findMin (some L) deltaf rtol = .ok out) :
+    out.orderOut = .int (i : Nat) ↔
+      (i + 1 < Fn.c ∧ ∀ i', i' < i → plscfColTest (aggOpen Fn L lab freq deltaf) freq rtol i' = false) := by
+  have ht := (onePerBand_passes lab freq Fn L deltaf rtol hne hd i hq).1
+  constructor
+  · intro ho
+    rcases C11_plscf_find_min_char chk lab freq Fn Xi Phi L deltaf rtol hne (by omega) with
+      ⟨j, hj, _, hjlow, hres⟩ | ⟨hno, hres⟩
+    · rw [hres] at h
+      have : out = plscfFoundOut (aggOpen Fn L lab freq deltaf) Xi Phi j := (Except.ok.inj h).symm
+      rw [this] at ho
+      have hji : j = i := by simpa [plscfFoundOut] using ho
+      subst hji
+      exact ⟨hj, hjlow⟩
+    · rw [hres] at h
+      have : out = plscfBreakOut (aggOpen Fn L lab freq deltaf) Xi Phi Fn.c := (Except.ok.inj h).symm
+      rw [this] at ho
+      have hci : (Fn.c : Int) - 2 = (i : Int) := by simpa [plscfBreakOut] using ho
+      have hlt : i + 1 < Fn.c := by omega
+      rw [hno i hlt] at ht
+      cases ht
+  · rintro ⟨hi, hlow⟩
+    obtain ⟨rows, _, hres, _⟩ :=
+      C11_plscf_find_min_premises chk lab freq Fn Xi Phi L deltaf rtol hne hd i hi hq hlow
+    rw [hres] at h
+    rw [← Except.ok.inj h]
+
 end plscf
 
 /-! ### SSI `find_min`: "one distinct stable value", not "one stable pole" -/
@@ -448,6 +484,61 @@ theorem C11_find_min_from_order_first (L : Mat Int) (hd : BandsDisjoint freq rto
     simp only [pickRows, List.mem_map]
     exact ⟨v, hvu, rfl⟩
 
+/-- no two stable in-band poles of column `i` share a frequency (the hypothesis under which "distinct value" and
+    "pole" coincide) -/
+def NoDupStable (Fn : Mat NR) (L : Mat Int) (freq : List Rat) (w : Rat) (i : Nat) : Prop :=
+  ∀ r r' v, r < Fn.r → r' < Fn.r → L.e r i = 1 → L.e r' i = 1 → Fn.e r i = some v → Fn.e r' i = some v →
+    v ≠ 0 → InSomeBand freq w v → r = r'
+
+/-- **the property's reading of the column test, with the hypothesis it needs.**  If no two stable in-band poles of
+    column `i` have exactly the same frequency (`hnd` — stronger than the property's premise; without it the statement
+    is false for the code: `Mutants.ssi_find_min_counts_values_not_poles`), column `i` passes `SSI_mpe`'s test iff its
+    stable non-zero in-band **poles** (rows) are exactly one per requested frequency, the `k`-th `isclose` to the `k`-th
+    request.  `hnd` is only used left to right. -/
+theorem C11_find_min_qual_iff_poles (L : Mat Int) (hd : BandsDisjoint freq rtol) (hcd : CloseDisjoint freq rtol)
+    (i : Nat) (hnd : NoDupStable Fn L freq rtol i) :
+    (ssiQual (aggClosed Fn L 1 freq rtol) freq rtol i).isSome ↔
+      ∃ rows : List Nat, rows.length = freq.length ∧
+        (∀ k (h1 : k < rows.length) (h2 : k < freq.length), rows[k] < Fn.r ∧ L.e rows[k] i = 1 ∧
+          ∃ v, Fn.e rows[k] i = some v ∧ v ≠ 0 ∧ InSomeBand freq rtol v ∧
+            |v - freq[k]| ≤ iscloseAtol + rtol * |freq[k]|) ∧
+        (∀ r v, r < Fn.r → L.e r i = 1 → Fn.e r i = some v → v ≠ 0 → InSomeBand freq rtol v → r ∈ rows) := by
+  rw [C11_find_min_qual_iff freq Fn rtol L hd hcd i]
+  constructor
+  · rintro ⟨vs, hlen, hk, hall⟩
+    have hst : ∀ k : Fin vs.length, StableVal Fn L i vs[k.1] := fun k => (hk k.1 k.2 (hlen ▸ k.2)).1
+    refine ⟨List.ofFn (fun k : Fin vs.length => Classical.choose (hst k)), by simp [hlen], ?_, ?_⟩
+    · intro k h1 h2
+      have hkv : k < vs.length := by simpa using h1
+      have hget : (List.ofFn (fun k : Fin vs.length => Classical.choose (hst k)))[k]
+          = Classical.choose (hst ⟨k, hkv⟩) := by simp
+      obtain ⟨a, b, c, d⟩ := Classical.choose_spec (hst ⟨k, hkv⟩)
+      have hb := hk k hkv h2
+      rw [hget]
+      exact ⟨a, b, vs[k], c, d, hb.2.1, hb.2.2⟩
+    · intro r v hr hl hfn hv hband
+      have hvs : v ∈ vs := hall v ⟨r, hr, hl, hfn, hv⟩ hband
+      obtain ⟨k, hkv, rfl⟩ := List.getElem_of_mem hvs
+      obtain ⟨a, b, c, d⟩ := Classical.choose_spec (hst ⟨k, hkv⟩)
+      have : r = Classical.choose (hst ⟨k, hkv⟩) := hnd r _ vs[k] hr a hl b hfn c hv hband
+      rw [this]
+      have hget : (List.ofFn (fun k : Fin vs.length => Classical.choose (hst k)))[k]'(by simpa using hkv)
+          = Classical.choose (hst ⟨k, hkv⟩) := by simp
+      rw [← hget]
+      exact List.getElem_mem _
+  · rintro ⟨rows, hlen, hk, hall⟩
+    refine ⟨rows.map (fun r => (Fn.e r i).getD 0), by simp [hlen], ?_, ?_⟩
+    · intro k h1 h2
+      have hkr : k < rows.length := by simpa using h1
+      obtain ⟨a, b, v, c, d, e, f⟩ := hk k hkr h2
+      have hget : (rows.map (fun r => (Fn.e r i).getD 0))[k] = v := by simp [c]
+      rw [hget]
+      exact ⟨⟨rows[k], a, b, c, d⟩, e, f⟩
+    · rintro v ⟨r, hr, hl, hfn, hv⟩ hband
+      have hmem := hall r v hr hl hfn hv hband
+      rw [List.mem_map]
+      exact ⟨r, hmem, by simp [hfn]⟩
+
 end ssi
 
 /-! ### Non-vacuity (the tables of `Props/C11.lean`: three orders, one stable pole per request from order 1 on) -/
@@ -515,5 +606,34 @@ example : ∃ out, ssiMpe [2, 5] exFn exXi exPhi .findMin (some exLab) (1 / 20) 
   cases hr : ssiMpe [2, 5] exFn exXi exPhi .findMin (some exLab) (1 / 20) none with
   | error e => rw [hr] at this; cases this
   | ok out => rw [hr] at this; exact ⟨out, rfl, by simpa using this⟩
+
+/-- `C11_find_min_qual_iff_poles`: in the example no two stable poles of order 1 share a frequency -/
+example : NoDupStable exFn exLab [2, 5] (1 / 20) 1 := by
+  intro r r' v hr hr' hl hl' hf hf' _ _
+  have h3 : ∀ r, r < exFn.r → r = 0 ∨ r = 1 ∨ r = 2 := by
+    intro r hr
+    have : exFn.r = 3 := rfl
+    omega
+  have e0 : exFn.e 0 1 = some (201 / 100) := by decide +kernel
+  have e1 : exFn.e 1 1 = some (251 / 50) := by decide +kernel
+  have l2 : ¬ exLab.e 2 1 = 1 := by decide
+  rcases h3 r hr with rfl | rfl | rfl <;> rcases h3 r' hr' with rfl | rfl | rfl
+  · rfl
+  · rw [e0] at hf; rw [e1] at hf'; cases hf; norm_num at hf'
+  · exact absurd hl' l2
+  · rw [e1] at hf; rw [e0] at hf'; cases hf; norm_num at hf'
+  · rfl
+  · exact absurd hl' l2
+  · exact absurd hl l2
+  · exact absurd hl l2
+  · rfl
+
+/-- `C11_plscf_find_min_order_iff`: the call on the example succeeds (as every call with a request and a column does),
+    `1 < exFn.c`, and order 1 qualifies (`OnePerBand` above) -/
+example : 1 < exFn.c ∧ ∃ out, plscfMpeWith (chkOwn (1 / 20)) 1 [2, 5] exFn exXi exPhi .findMin (some exLab) (1 / 20) (1 / 20)
+    = .ok out := by
+  refine ⟨by decide, ?_⟩
+  rcases C11_plscf_find_min_char (chkOwn (1 / 20)) 1 [2, 5] exFn exXi exPhi exLab (1 / 20) (1 / 20) (by simp)
+    (by decide) with ⟨_, _, _, _, h⟩ | ⟨_, h⟩ <;> exact ⟨_, h⟩
 
 end PV.C11
